@@ -737,7 +737,17 @@ def c16(ctx):
     nsmall = len(recs)
     # the deep / long programs are read one after the other when TLC starts (they are constants of the model):
     # cut into pieces of 8 programs, the pieces run side by side
-    runs = [(trace, recs, nt, calls, '') for (nt, calls) in configs] + [(big, bigrecs, 2, 1, '_big')]
+    runs = [(trace, recs, nt, calls, '') for (nt, calls) in configs if not (nt * calls >= 6 and len(recs) > 100)] + [(big, bigrecs, 2, 1, '_big')]
+    if any(nt * calls >= 6 for (nt, calls) in configs) and len(recs) > 100:
+        # three calls per thread: on the programs with one or two printers (the state space of three printers x six calls
+        # does not finish)
+        def nleaves(t):
+            return nleaves(t['l']) + nleaves(t['r']) if t.get('k') in ('and', 'or', 'list') else 1
+        small = [r for r in recs if nleaves(r['t']) <= 2]
+        smalltr = '%s/c16small.ndjson' % ctx.work
+        with open(smalltr, 'w') as f:
+            f.writelines(json.dumps(r) + '\n' for r in small)
+        runs += [(smalltr, small, nt, calls, '_small') for (nt, calls) in configs if nt * calls >= 6]
     for k in range(0, len(spinerecs), 8):
         part = '%s/c16spine_%d.ndjson' % (ctx.work, k // 8)
         with open(part, 'w') as f:
